@@ -26,7 +26,7 @@ LEVEL_NOTE = ('Finite value alphabets; sums reorder under permutation, so permut
 RULE = ("cases: (kind, configuration, chunk); executions: Fitter.fit calls compared pairwise; for histories a state is (fitter canonical hash, history) and a transition one fit; "
         "non-trivial = distinct non-identity permutations / constants != 1 / histories of length >= 2")
 ASSUMPTIONS = ["finite value alphabets", "canonical encoding of Fitter covers all state that can influence a fit (models.fluxes, names, wavelengths, distances, logd, extended, av_law, sc_law, av_range, filters)"]
-REQUIRED_CLASSES = ['earlier-results-rechecked', 'both-limit-kinds-different-confidence', 'filter-perm', 'model-perm-files', 'brightness-constant', 'history-len3', 'history-repeat-same-source', 'mode-2d', 'mode-3d', 'float32-path',
+REQUIRED_CLASSES = ['integer-typed-photometry', 'earlier-results-rechecked', 'both-limit-kinds-different-confidence', 'filter-perm', 'model-perm-files', 'brightness-constant', 'history-len3', 'history-repeat-same-source', 'mode-2d', 'mode-3d', 'float32-path',
                     'source-with-limits', 'source-all-flag4']
 TIMEOUT = {'quick': 600, 'thorough': 3000}
 
@@ -147,6 +147,15 @@ def run_case(ctx, case, rec, d):
                 rec.ev(len(names))
                 rec.trans(2)
                 rec.cls('brightness-constant')
+                if 4 not in fv and c in (2.0, 10.0, 1e3) and all(v not in (2, 3) or e_ in (0.0, 1.0) for v, e_ in zip(fv, er)):
+                    # the same relation on whole-number photometry handed over as python ints
+                    fi = np.maximum(np.round(fl * 1000.0), 1.0)
+                    ei = np.array([e_ if v in (2, 3) else max(round(e_ * 1000.0), 1.0) for v, e_ in zip(fv, er)])
+                    bi = _res(fitter.fit(fc.make_source(fv, fi, ei, as_int=True)), names)
+                    ri = _res(fitter.fit(fc.make_source(fv, [x * (c if v not in (2, 3) else c) for x, v in zip(fi, fv)], [e_ * (c if v not in (2, 3) else 1) for e_, v in zip(ei, fv)], as_int=True)), names)
+                    rec.cls('integer-typed-photometry')
+                    if not (np.allclose(ri[0], bi[0], rtol=1e-9, atol=1e-9) and np.allclose(ri[1], bi[1] - 0.5 * np.log10(c), rtol=1e-9, atol=1e-9) and np.allclose(ri[2], bi[2], rtol=1e-8, atol=1e-8 * (1 + np.max(np.abs(bi[2]))))):
+                        rec.violation('invariance|brightness|integer-photometry', {'source': si, 'const': c}, {'flags': list(fv), 'base': list(bi), 'scaled': list(ri)})
                 rec.nontriv(('const', case['variant'], si, c))
                 rec.state(('const', case['variant'], si, c))
                 rec.outcome(tuple(np.round(r[1], 6)))
